@@ -2199,6 +2199,11 @@ def match_method(I, m, name, args, kwargs):
         if z3.is_int_value(z3.simplify(g)) and z3.simplify(g).as_long() == 0:
             return _match_text(m, z3.SubString(m.string, m.start(0), m.end(0) - m.start(0)))
         return match_group_value(m, g)
+    if name == 'groupdict' and not args:
+        d = VDict()
+        for nm, gi in sorted(m.names.items(), key=lambda kv: kv[1]):
+            d.items[nm] = match_group_value(m, z3.IntVal(gi))
+        return d
     if name in ('start', 'end'):
         g = match_group_index(m, args[0]) if args else z3.IntVal(0)
         return VInt((m.start if name == 'start' else m.end)(g))
